@@ -72,15 +72,15 @@ package vikja
 //@   property C16
 //@   requires s != nil && p != nil && s.moduleStates != nil
 //@   requires "vikja" in s.moduleStates ==> dyntype(s.moduleStates["vikja"], *State) && s.moduleStates["vikja"].(*State) != nil
-//@   modifies m.currentSession, m.currentParticipant, m.state, contents(s.moduleStates)
+//@   modifies {C03} m.currentSession, m.currentParticipant, m.state, contents(s.moduleStates)
 //@   allocates
 //@   ensures m.currentSession == s && m.currentParticipant == p && m.state != nil
-//@   ensures {C16} "vikja" in s.moduleStates && s.moduleStates["vikja"].(*State) == m.state
-//@   ensures {C16} old("vikja" in s.moduleStates) ==> m.state == old(s.moduleStates["vikja"].(*State)) && same_contents(s.moduleStates)
+//@   ensures {C16,C03} "vikja" in s.moduleStates && s.moduleStates["vikja"].(*State) == m.state
+//@   ensures {C16,C03} old("vikja" in s.moduleStates) ==> m.state == old(s.moduleStates["vikja"].(*State)) && same_contents(s.moduleStates)
 
 //@ func (*modules/vikja.Module).handleSetEntityAction
 //@   event
-//@   modifies m.state.entityActions, contents(m.state.entityActions), all contents(map[string]*vikjapb.EntityAction @ modules/vikja.State.entityActions[]), all ghost.*
+//@   modifies {C03} m.state.entityActions, contents(m.state.entityActions), all contents(map[string]*vikjapb.EntityAction @ modules/vikja.State.entityActions[]), all ghost.*
 //@   allocates
 //@   property C16, C04
 //@   let req = decoded(msg, vikjapb.EntityActionRequest)
@@ -120,7 +120,7 @@ package vikja
 
 //@ func (*modules/vikja.Module).handleEntityDelete
 //@   event
-//@   modifies contents(m.state.entityActions)
+//@   modifies {C03} contents(m.state.entityActions)
 //@   allocates
 //@   property C16, C06
 //@   let id = decoded(msg, hagallpb.EntityDeleteRequest).EntityId
